@@ -14,6 +14,8 @@ import math
 from fractions import Fraction
 
 from ..core import frac
+from .. import c11_fdr as _fdrx   # round 5: FDRThres as written (op fdr_cdf)
+from .. import c11_hmm_methods as _hmmx   # round 5: state tables of every hmm method branch (op hmm_states)
 
 LEVEL = "proof"
 RULE = ("component ops: one call of HaarConv / FindLocalPeaks / FDRThres / UnifyLevels / SegmentByPeaks / haarSeg per "
@@ -48,6 +50,11 @@ RULE = ("component ops: one call of HaarConv / FindLocalPeaks / FDRThres / Unify
         "and beyond n) against the model's hiIdx / loIdx and the source expressions re-read by the translator; the "
         "arguments hmm_get_model really hands to pomegranate's from_matrix against the generated start vector / "
         "transition matrix. "
+        "Round 5: op fdr_cdf = the real FDRThres and the keep test |x| >= T of haarSeg on peak arrays (gaussian, dyadic with "
+        "ties, largest peak at 1 +- 1 ulp, far-out peaks with p-values passing up to an index inside the array, constants; "
+        "M 0..40, q 0..1, stdev 0..3) against the model with the scipy cdf values as a table, plus the statements of "
+        "Props/C11Fdr on the real output; op hmm_states = hmm_get_model run up to from_matrix for hmm-germline, hmm-tumor "
+        "and hmm against the generated state tables. "
         "SEARCH, NOT PROOF: a failing profile is a real counterexample (VIOLATION with the "
         "profile as replay), a passing run proves nothing about unseen profiles. non-trivial = the op's output is non-empty / has a breakpoint; distinct by hash")
 EXHAUSTIVE = {"quick": False, "thorough": False}
@@ -583,9 +590,9 @@ def gen_oracle(rng, k):
 
 def gen_cases(rng, tier):
     sizes = {
-        "quick": dict(fl=300, conv=500, peaks=600, fdr=400, unify=1200, segs=400, hs=300, oracle=450, cw=160, hsw=120, idx=60),
-        "thorough": dict(fl=3000, conv=4000, peaks=5000, fdr=3000, unify=6000, segs=3000, hs=2500, oracle=4000, cw=1200, hsw=900, idx=400),
-        "search": dict(fl=100, conv=300, peaks=300, fdr=200, unify=300, segs=200, hs=300, oracle=300, cw=150, hsw=100, idx=40),
+        "quick": dict(fl=300, conv=500, peaks=600, fdr=400, unify=1200, segs=400, hs=300, oracle=450, cw=160, hsw=120, idx=60, fz=300),
+        "thorough": dict(fl=3000, conv=4000, peaks=5000, fdr=3000, unify=6000, segs=3000, hs=2500, oracle=4000, cw=1200, hsw=900, idx=400, fz=3000),
+        "search": dict(fl=100, conv=300, peaks=300, fdr=200, unify=300, segs=200, hs=300, oracle=300, cw=150, hsw=100, idx=40, fz=150),
     }[tier]
     import os as _os
     if _os.environ.get("VERIF_C11_ORACLE"):   # development switch (mutation self-tests on a loaded machine): fewer oracle profiles
@@ -596,6 +603,8 @@ def gen_cases(rng, tier):
     import random as _random
     xr = _random.Random(rng.getrandbits(64))
     ext = gen_conv_w_step(xr, sizes["cw"]) + gen_haarseg_w(xr, sizes["hsw"]) + gen_idx(xr, sizes["idx"])
+    ext += _hmmx.gen()
+    ext += _fdrx.gen_fdr_cdf(_random.Random(xr.getrandbits(64)), sizes["fz"])   # after the older extension ops: their draws stay as they were
     cases += gen_fl64(rng, sizes["fl"])
     cases += gen_conv(rng, sizes["conv"])
     cases += gen_peaks(rng, sizes["peaks"])
@@ -610,7 +619,7 @@ def gen_cases(rng, tier):
 
 
 def corpus():
-    out = []
+    out = list(_fdrx.corpus())
     # boundary of the ideal-step theorem: b = 32 = n - b, every level one peak
     for lo, hi in ((0.0, -1.0), (0.585, 0.0), (0.0, 1.0), (0.25, 0.125)):
         I = [lo] * 32 + [hi] * 32
@@ -872,6 +881,10 @@ def run_impl(case):
     import numpy as np
     from cnvlib.segmentation import haar
     op, i = case["op"], case["in"]
+    if op == "fdr_cdf":
+        return _fdrx.run_impl(case)
+    if op == "hmm_states":
+        return _hmmx.run_impl(case, _cna)
     if op == "fl64":
         return frac(float(Fraction(i["x"])))
     if op == "haar_conv":
@@ -1093,6 +1106,10 @@ def _oracle_units(i, impl):
 def to_line(case, impl):
     op, i = case["op"], case["in"]
     err = isinstance(impl, dict) and "__error__" in impl
+    if op == "fdr_cdf":
+        return _fdrx.to_line(case, impl)
+    if op == "hmm_states":
+        return _hmmx.to_line(case, impl)
     if op == "fl64":
         return {"op": op, "in": i, "impl": None}
     if op == "haar_conv":
@@ -1184,6 +1201,14 @@ def judge(case, impl, resp):
     spec = list(resp.get("spec") or [])
     out = resp.get("out")
     dis = []
+    if op == "fdr_cdf":
+        _fdrx.judge(case, impl, resp, spec, dis)
+        return spec, dis, None
+    if op == "hmm_states":
+        _hmmx.judge(case, impl, resp, spec, dis)
+        if not out.get("table_ok"):
+            dis.append("state table of the method is not well-formed (hmmzTableOk)")
+        return spec, dis, None
     if op == "fl64":
         if Fraction(impl) != Fraction(out):
             dis.append(f"fl64 model {out} python {impl}")
@@ -1287,6 +1312,8 @@ def nontrivial(case, impl, resp):
     if isinstance(impl, dict) and "__error__" in impl:
         return False
     op, i = case["op"], case["in"]
+    if op == "fdr_cdf":
+        return _fdrx.nontrivial(case, impl, resp)
     if op == "haar_conv":
         return len(i["sig"]) >= i["h"] and len(set(i["sig"])) > 1
     if op == "find_peaks":
